@@ -97,7 +97,7 @@ def execute(version, script, token, user_plug, seed, thr_of=None, keybits=1024, 
     info = {'secret': None, 'srv_token': None, 'server_id': None, 'hash': None, 'der': der}
     thr_of = thr_of or (lambda t: THR[t % len(THR)])
 
-    pending_burst, burst_seen = [0], [0]
+    pending_burst, burst_seen, deferred = [0], [0], [0]
 
     def factory(idx, sess):
         sc = TracingScript(run, prof, [])
@@ -122,6 +122,13 @@ def execute(version, script, token, user_plug, seed, thr_of=None, keybits=1024, 
                           ('send', prof.enc_request(sid, der, tok)),
                           ('wait', after_resp),
                           ('encrypt', lambda sc: info['secret'] if info['secret'] and len(info['secret']) == 16 else b'\0' * 16)]
+                if deferred[0]:
+                    # plugin requests that went out right in front of the encryption request: their answers may come before
+                    # (plain) or after (encrypted) the encryption response, and are awaited here
+                    k = deferred[0]
+                    deferred[0] = 0
+                    steps += [('wait', lambda sc, k=k: sum(1 for p in sc.parsed if p['t'] == 'plugin_response') >= burst_seen[0] + k),
+                              ('call', lambda sc, k=k: burst_seen.__setitem__(0, burst_seen[0] + k))]
             elif st[0] == 'comp':
                 t = thr_of(st[1])
                 steps += [('call', lambda sc, t=t: (run.ev('srv', s=['comp', st_idx(t)]), info.__setitem__('thr', t))),
@@ -132,6 +139,9 @@ def execute(version, script, token, user_plug, seed, thr_of=None, keybits=1024, 
                           ('send', prof.plugin_request(st[1], 'verif:chan', b'\x01\x02'))]
                 if burst and j + 1 < len(script) and script[j + 1][0] == 'plug':
                     pending_burst[0] += 1           # consecutive requests go out back to back; the answers are awaited together
+                elif burst == 'xenc' and j + 1 < len(script) and script[j + 1][0] == 'enc':
+                    deferred[0] = pending_burst[0] + 1      # ... and so does an encryption request right behind them
+                    pending_burst[0] = 0
                 else:
                     k = pending_burst[0] + 1
                     pending_burst[0] = 0
@@ -339,6 +349,8 @@ def run(chk):
             if not opts:
                 break
             o = rng.choice(opts)
+            if o == 'enc' and plug and rng.random() < 0.5:
+                script.append(['plug', rng.choice([5, 6, 7, 200])])        # a plugin request right in front of the encryption request
             if o == 'enc':
                 script.append(['enc', rng.random() < 0.5]); did_enc = True
             elif o == 'comp':
@@ -349,7 +361,7 @@ def run(chk):
                     script.append(['plug', rng.choice([2, 3, 129, 16383, 16384, 2 ** 31 - 2])])
         script.append(['succ'] if rng.random() < 0.6 else ['disc', rng.choice(sorted(TEXTS))])
         token, up = rng.random() < 0.5, rng.random() < 0.3
-        run_ = execute(version, script, token, up, chk.seed * 31 + j, keybits=1024 if j % 7 else 2048, burst=(j % 2 == 0),
+        run_ = execute(version, script, token, up, chk.seed * 31 + j, keybits=1024 if j % 7 else 2048, burst=('xenc' if j % 4 == 0 else j % 2 == 0),
                        key_form=('spki', 'pkcs1', 'nonull')[j % 3])
         ev, frames = observe(run_, token, up, None)
         chk.traces += 1
